@@ -14,7 +14,7 @@ const char *mop_names[MOP_N] = {
     "glyphs",
     "r_init_rects", "r_binop", "r_rectop", "r_copy", "r_inverse", "r_conv", "r_fini",
     "filter_create", "compute_region",
-    "scribble", "alias", "bits_huge", "bits_yuv",
+    "scribble", "alias", "bits_huge", "bits_yuv", "r_from_image",
 };
 
 const pixman_format_code_t sim_formats[] = {
@@ -1462,6 +1462,28 @@ step_region_op (machine_t *m, const sim_op_t *op, const int64_t *a, int n, mstep
 	else st->ret = pixman_region32_copy_from_region16 (&m->r32[dst], &m->r16[src]);
 	return;
     }
+    case MOP_R_FROM_IMAGE:
+    {
+	/* void: its way of reporting failure is to leave the broken region */
+	int dst = (int)sim_mod (A (1), M_NREG), slot = (int)sim_mod (A (2), M_NIMG);
+	mslot_t *s = &m->img[slot];
+	if (!img_ok (m, slot) || s->kind != MOP_BITS || s->fmt != PIXMAN_a1 || s->yuv) { st->executed = 0; st->has_status = 0; st->region_written = 0; return; }
+	st->region_slot = dst;
+	set_active (m, slot, -1, -1);
+	if (w16)
+	{
+	    pixman_region_fini (&m->r16[dst]);
+	    pixman_region_init_from_image (&m->r16[dst], s->img);
+	    st->ret = !(pixman_region_n_rects (&m->r16[dst]) == 0 && !pixman_region_not_empty (&m->r16[dst]) && !pixman_region_selfcheck (&m->r16[dst]));
+	}
+	else
+	{
+	    pixman_region32_fini (&m->r32[dst]);
+	    pixman_region32_init_from_image (&m->r32[dst], s->img);
+	    st->ret = !(pixman_region32_n_rects (&m->r32[dst]) == 0 && !pixman_region32_not_empty (&m->r32[dst]) && !pixman_region32_selfcheck (&m->r32[dst]));
+	}
+	return;
+    }
     case MOP_R_FINI:
     {
 	int dst = (int)sim_mod (A (1), M_NREG);
@@ -1544,7 +1566,7 @@ machine_step (machine_t *m, const sim_op_t *op, int op_index, mstep_t *st)
     if (op->kind <= MOP_SET_DITHER_OFFSET || op->kind == MOP_ALIAS || op->kind == MOP_BITS_HUGE || op->kind == MOP_BITS_YUV) step_image_op (m, op, a, n, st);
     else if (op->kind <= MOP_COMPOSITE_TRIS || op->kind == MOP_SCRIBBLE) step_draw_op (m, op, a, n, st);
     else if (op->kind <= MOP_GLYPHS) step_glyph_op (m, op, a, n, st);
-    else if (op->kind <= MOP_R_FINI) step_region_op (m, op, a, n, st);
+    else if (op->kind <= MOP_R_FINI || op->kind == MOP_R_FROM_IMAGE) step_region_op (m, op, a, n, st);
     else step_misc_op (m, op, a, n, st);
     sim_alloc_leave ();
     st->n_allocs = sim_alloc.n_allocs;
